@@ -245,7 +245,7 @@ func checkC16(c *Ctx) {
 			ctxD := Desc(Args(add.(ssa.CallInstruction))[0])
 			c.Check(strings.Contains(ctxD, "Clone(c.jsonEncoder)") && Strip(Args(add.(ssa.CallInstruction))[1]) == ssa.Value(wc.Params[2]) && Dominates(clone, add), "R16.3", wn, "fields-into-clone", add.Pos(), "the call-site fields go into that clone (%s)", ctxD)
 			c.Check(Dominates(add, closeNS) && Dominates(closeNS, lenCall) && strings.Contains(Desc(Args(closeNS.(ssa.CallInstruction))[0]), "Clone(c.jsonEncoder)"), "R16.3", wn, "namespaces-closed-before-empty-test", closeNS.Pos(), "open namespaces are closed on the clone before its emptiness is tested")
-			c.Check(Dominates(open, write) && Dominates(write, closeB) && strings.HasPrefix(Desc(Args(write.(ssa.CallInstruction))[1]), "Bytes(") && containsS(AtomStrings(Guards(open)), Desc(lenCall.(ssa.Value))+" != 0"), "R16.3", wn, "braces-around-context", open.Pos(), "a non-empty context is written as '{' + the clone's bytes + '}'")
+			c.Check(Dominates(open, write) && Dominates(write, closeB) && strings.HasPrefix(Desc(Args(write.(ssa.CallInstruction))[1]), "Bytes(") && containsS(AtomStrings(Guards(open)), Desc(lenCall.(ssa.Value))+" > 0"), "R16.3", wn, "braces-around-context", open.Pos(), "a non-empty context is written as '{' + the clone's bytes + '}'")
 			okSep := false
 			for _, cl := range Calls(wc) {
 				if f := CalleeFunc(cl); f != nil && f.Name() == "addSeparatorIfNecessary" && Dominates(cl, open) && cl.Block() == open.Block() {
